@@ -114,19 +114,37 @@ def cases(tier, seed):
         yield "ig.coo", {"table": table, "px": px, "one_based": one_based, "tril": tril,
                          "via": via, "chunk": rng.choice([1, 2, 1000])}
     # tabix-indexed loader: sorted, upper-triangle, 1-based pairs
-    for h in range(24 if tier == "quick" else 300):
+    for h in range(40 if tier == "quick" else 400):
         table = tables[h % len(tables)]
         bad = h % 6 == 5
         recs = mk_records(rng, table, rng.randint(1, 8), allow_bad=False, unknown_rate=0.0)
         recs = [r if (r[0], r[1]) <= (r[2], r[3]) else [r[2], r[3], r[0], r[1]] for r in recs]
+        if h % 2 == 0:
+            # mates on chromosomes that are not in the bin table, several in a row (they must simply be dropped)
+            extra = []
+            for r in rng.sample(recs, min(len(recs), 3)):
+                extra += [[r[0], r[1], -1, rng.randint(0, 9)] for _ in range(rng.randint(1, 3))]
+            recs = recs + extra
         if bad:
             lens = gen.chrom_lens(table)
-            r = recs[-1]
-            recs[-1] = [r[0], r[1], r[2], lens[r[2]] + rng.choice([0, 1])]         # pos2 at / beyond the chromosome end
-        recs.sort()
+            k = max(i for i, r in enumerate(recs) if r[2] >= 0)
+            r = recs[k]
+            recs[k] = [r[0], r[1], r[2], lens[r[2]] + rng.choice([0, 1])]           # pos2 at / beyond the chromosome end
+        recs.sort(key=lambda r: (r[0], r[1], -r[2], r[3]))       # unknown mates first within a position
         recs = [[r[0], r[1] + 1, r[2], r[3] + 1] for r in recs]
         yield "ig.tabix", {"table": table, "recs": recs, "one_based": True, "tril": "none", "valued": False,
                            "max_split": rng.choice([0, 1, 2])}
+
+
+F3_KEY = "C05:F3:sanitize_records accepts a position equal to the chromosome length"
+
+
+def keyfn(ev, clauses):
+    """TLC names the clause after the input class; only that exact class maps onto the known finding."""
+    if clauses == ["outOfChromRejected:positionEqualsLength"] and ev["drv"] in ("ig.records", "ig.bg2"):
+        return F3_KEY
+    import json
+    return f"{ev['drv']}:{','.join(clauses)}:{json.dumps(ev['case'], sort_keys=True)}"
 
 
 def run(tier, seed, only_case=None):
@@ -149,5 +167,5 @@ def run(tier, seed, only_case=None):
     for drv, case, obs in run_cases(cs, chunk=8):
         r.record(TRACE, drv, case, obs, True)
     r.exhaustive = False
-    r.validate(TRACE)
+    r.validate(TRACE, keyfn=keyfn)
     return r.finish()
